@@ -495,21 +495,25 @@ class Orbital(object):
         # since 1970.
         time_unit = "us"  # same precision as datetime
 
+        # Bisect on the time since tstart: the relative tolerance of the bisection would otherwise
+        # apply to microseconds since 1970, i.e. seconds.
+        t_ref = np.datetime64(tstart, time_unit).astype(np.int64)
+
         def _nprime(time_f):
             """Continuous orbit number as a function of time."""
-            time64 = np.datetime64(int(time_f), time_unit)
+            time64 = np.datetime64(int(time_f) + int(t_ref), time_unit)
             n = self.get_orbit_number(time64, as_float=True)
             return n - offset
 
         try:
             tcross = optimize.bisect(_nprime,
-                                     a=np.datetime64(tstart, time_unit).astype(np.int64),
-                                     b=np.datetime64(tend, time_unit).astype(np.int64),
+                                     a=0,
+                                     b=np.datetime64(tend, time_unit).astype(np.int64) - t_ref,
                                      rtol=rtol)
         except ValueError:
             # Bisection did not converge
             return None
-        tcross = np.datetime64(int(tcross), time_unit).astype(dt.datetime)
+        tcross = np.datetime64(int(tcross) + int(t_ref), time_unit).astype(dt.datetime)
 
         # Convert UTC to local time
         if local_time:
